@@ -45,6 +45,23 @@ class ImageSurface(Surface):
 
         self._record(rays)
 
+    @classmethod
+    def _from_dict(cls, data):
+        """
+        Creates an image surface from a dictionary representation.
+
+        Args:
+            data (dict): The dictionary representation of the surface.
+
+        Returns:
+            ImageSurface: The image surface.
+        """
+        geometry = BaseGeometry.from_dict(data['geometry'])
+        material_pre = BaseMaterial.from_dict(data['material_pre'])
+        aperture = BaseAperture.from_dict(data['aperture']) \
+            if data['aperture'] else None
+        return cls(geometry, material_pre, aperture)
+
     def _interact(self, rays):
         """
         Interacts rays with the surface.
